@@ -21,7 +21,7 @@ fn with_probe(mut stmt: Vec<Node>) -> Vec<Node> {
     stmt
 }
 
-/// leaf statements of the exhaustive C04 grammar (15)
+/// leaf statements of the exhaustive C04 grammar (18)
 pub fn leaves() -> Vec<Vec<Node>> {
     let mut v = Vec::new();
     for n in NAMES {
@@ -29,6 +29,8 @@ pub fn leaves() -> Vec<Vec<Node>> {
         v.push(vec![Node::Capture(n.to_string(), vec![Node::Text("cap".into()), Node::Incr("c".into())])]);
         v.push(vec![Node::Incr(n.to_string())]);
         v.push(vec![Node::Decr(n.to_string())]);
+        // a capture whose body prints nothing still binds (the empty text)
+        v.push(vec![Node::Capture(n.to_string(), vec![Node::If { arms: vec![(Cond::atom(Atom::Truthy(Expr::Lit(RVal::Bool(false)))), vec![Node::Text("never".into())])], else_: None }])]);
     }
     v.push(vec![Node::Include { name: Expr::str("pa"), args: vec![] }]);
     v.push(vec![Node::Include { name: Expr::str("pa"), args: vec![("a".into(), Expr::str("arg"))] }]);
@@ -221,6 +223,15 @@ impl ScopeGen<'_> {
                 }
                 2 if !deep => {
                     let n = self.name();
+                    if self.rng.chance(1, 4) {
+                        // body that prints nothing (or only on some iterations)
+                        let cond = if in_loop && self.rng.chance(1, 2) {
+                            Cond::atom(Atom::Cmp(Expr::Var(Path::name("forloop").dot("index")), Op::Eq, Expr::int(1)))
+                        } else {
+                            Cond::atom(Atom::Truthy(Expr::Lit(RVal::Bool(false))))
+                        };
+                        return vec![Node::Capture(n, vec![Node::If { arms: vec![(cond, vec![Node::Text("once".into())])], else_: None }])];
+                    }
                     let len = 1 + self.rng.below(2);
                     let body = self.body(depth + 1, in_loop, len);
                     vec![Node::Capture(n, body)]
